@@ -1,5 +1,5 @@
 (* Proofs about Model/CtlMgr.v: inductive invariants over every action list. *)
-From Coq Require Import List NArith Bool Lia.
+From Coq Require Import List NArith ZArith Bool Lia.
 From FRP Require Import Model.CtlMgr.
 Import ListNotations.
 Import CM.
@@ -39,17 +39,17 @@ End AL.
 Arguments aset : simpl never.
 
 (* ---------- reachability ---------- *)
-Definition reachable (st : state) : Prop := exists acts, st = run acts init.
+Definition reachable (st : state) : Prop := exists m acts, st = run acts (init_with m).
 
 Lemma run_app : forall a b st, run (a ++ b) st = run b (run a st).
 Proof. intros. unfold run. apply fold_left_app. Qed.
 
-Lemma reachable_ind' : forall (P : state -> Prop),
-  P init ->
+Lemma reachable_ind' : forall (P : state -> Prop) m,
+  P (init_with m) ->
   (forall st a st' o, P st -> step st a = Some (st', o) -> P st') ->
-  forall acts, P (run acts init).
+  forall acts, P (run acts (init_with m)).
 Proof.
-  intros P H0 HS acts.
+  intros P m H0 HS acts.
   assert (G : forall acts st, P st -> P (run acts st)).
   { induction acts0 as [|a r IH]; intros st Hst; simpl; [exact Hst|].
     apply IH. unfold next. destruct (step st a) as [[st' o]|] eqn:E; [eapply HS; eauto|exact Hst]. }
@@ -115,6 +115,16 @@ Ltac eqd :=
 
 Ltac inv1 H := inversion H; subst; clear H.
 
+Lemma qb_eq : forall st x np, exists v, quota_back st x np = with_ports x v.
+Proof.
+  intros. unfold quota_back. destruct (0 <? maxports st)%Z; [eexists; reflexivity|].
+  exists (s_ports x). destruct x; reflexivity.
+Qed.
+
+Ltac qb := repeat match goal with
+  | |- context [quota_back ?a ?b ?c] => let v := fresh "v" in let E := fresh "E" in destruct (qb_eq a b c) as [v E]; rewrite E; clear E
+  end.
+
 (* destructs a successful step into its elementary cases *)
 Ltac step_cases H :=
   match type of H with
@@ -124,8 +134,8 @@ Ltac step_cases H :=
       | destruct (alookup s0 (sessions _)) as [x|] eqn:Hx; [|discriminate];
         unfold step_req in H; destruct (s_spc x) eqn:Hpc; try discriminate;
         destruct (s_closed x) eqn:Hcl; try discriminate;
-        destruct rq as [name att cfgok runok|name];
-        [ destruct cfgok; inv1 H
+        destruct rq as [name att np cfgok runok|name];
+        [ destruct cfgok; [destruct (0 <? maxports _)%Z eqn:Hmax; [destruct (maxports _ <? s_ports x + np)%Z eqn:Hq|]|]; inv1 H
         | destruct (alookup name (s_proxies x)) as [pid|] eqn:Hown; inv1 H ]
       | destruct (alookup s0 (sessions _)) as [x|] eqn:Hx; [|discriminate];
         unfold step_eof in H; destruct (s_spc x) eqn:Hpc; try discriminate; inv1 H
@@ -137,7 +147,7 @@ Ltac step_cases H :=
           destruct (s_done y) eqn:Hdone; [|discriminate]; inv1 H
         | inv1 H ]
       | destruct (alookup s0 (sessions _)) as [x|] eqn:Hx; [|discriminate];
-        unfold step_sess in H; destruct (s_spc x) as [| |name att runok|name att runok|name pid|name pid|name pid|name pid| |todo|name pid todo|] eqn:Hpc;
+        unfold step_sess in H; destruct (s_spc x) as [| |name att np runok|name att np runok|name pid|name pid|name pid|name pid| |todo|name pid todo|] eqn:Hpc;
         try discriminate;
         [ destruct (s_closed x) eqn:Hcl; [|discriminate]; inv1 H
         | destruct (alookup name (pxys _)) as [q|] eqn:Hex; inv1 H
@@ -157,7 +167,7 @@ Ltac step_cases H :=
   end.
 
 (* ---------- group A: the name table ---------- *)
-Lemma invA_init : invA init.
+Lemma invA_init : forall m, invA (init_with m).
 Proof. constructor; simpl; intros; discriminate. Qed.
 
 (* only sessions / pxys / proxies / next_pid / next_sid matter *)
@@ -216,8 +226,7 @@ Proof. intros. unfold close_proxy. destruct (alookup pid (proxies st)); reflexiv
 
 (* NewControl: a session that is in no table yet *)
 Lemma invA_new : forall st r, invA st ->
-  invA (mkSt (next_sid st + 1) (next_pid st) (addctr st) (aset (next_sid st) (new_session r) (sessions st))
-             (ctls st) (pxys st) (proxies st)).
+  invA (set_next_sid (put st (next_sid st) (new_session r)) (next_sid st + 1)).
 Proof.
   intros st r I. pose proof I as [I1 I2 I0 I3 I4 I5 I6].
   assert (F : alookup (next_sid st) (sessions st) = None).
@@ -285,7 +294,7 @@ Ltac upd_tac I Hx Hpc :=
 
 Lemma invA_step : forall st a st' o, invA st -> step st a = Some (st', o) -> invA st'.
 Proof.
-  intros st a st' o I H. step_cases H; try assumption;
+  intros st a st' o I H. step_cases H; qb; try assumption;
     try (upd_tac I Hx Hpc; fail).
   - (* ALogin *) apply invA_new; exact I.
   - (* CloseProxy of an own name: pxy.Close() *)
@@ -325,7 +334,7 @@ Proof.
     assert (F : alookup (next_pid st) (proxies st) = None).
     { destruct (alookup (next_pid st) (proxies st)) eqn:E; [|reflexivity]. apply I2 in E. lia. }
     assert (OB : forall s n p, owned_by st s n p ->
-       exists pr, alookup p (aset (next_pid st) (mkP s0 name att PRunning) (proxies st)) = Some pr /\ p_owner pr = s /\ p_name pr = n).
+       exists pr, alookup p (aset (next_pid st) (mkP s0 name att np PRunning) (proxies st)) = Some pr /\ p_owner pr = s /\ p_name pr = n).
     { intros s n p (pr & Hp & Ho & Hn). exists pr. lk. destruct (N.eqb_spec p (next_pid st)); [subst; congruence|auto]. }
     constructor; unfold owned_by; simpl; intros.
     + lk. eqd; eauto.
@@ -339,7 +348,7 @@ Proof.
       * destruct (I3 _ _ _ _ H H0) as [? H2]. split; [auto|useOB OB H2].
     + lkH H. destruct (N.eqb_spec s s0); subst.
       * inv1 H. unfold inflight in H0; simpl in H0. inv1 H0.
-        exists (mkP s0 n att PRunning). lk. rewrite N.eqb_refl. auto.
+        exists (mkP s0 n att np PRunning). lk. rewrite N.eqb_refl. auto.
       * pose proof (I4 _ _ _ _ H H0) as H2. useOB OB H2.
     + lk. destruct (N.eqb_spec s s0); subst; [inv1 H; simpl in H0; discriminate|eauto].
     + destruct (I6 _ _ H) as (pr & y & Hp & Hy & Hr). exists pr. lk.
@@ -414,8 +423,8 @@ Proof.
     upd_tac I Hx Hpc.
 Qed.
 
-Theorem invA_reachable : forall acts, invA (run acts init).
-Proof. apply reachable_ind'; [exact invA_init|]. intros; eapply invA_step; eauto. Qed.
+Theorem invA_reachable : forall m acts, invA (run acts (init_with m)).
+Proof. intro m. apply reachable_ind'; [exact (invA_init m)|]. intros; eapply invA_step; eauto. Qed.
 
 (* ---------- group B: the run-id table and the replacement chain ---------- *)
 Definition added (x : session) : Prop := s_lpc x <> LAdd.
@@ -444,7 +453,7 @@ Record invB (st : state) : Prop := {
                         s_seq z < s_seq x -> s_done z = true
 }.
 
-Lemma invB_init : invB init.
+Lemma invB_init : forall m, invB (init_with m).
 Proof. constructor; simpl; intros; discriminate. Qed.
 
 Lemma invB_upd : forall st s x x',
@@ -491,7 +500,7 @@ Proof.
     apply D1. eapply (J8 _ _ Hz (P0 H0) _ _ Hz1); [tauto|congruence|lia].
 Qed.
 
-Ltac psimpl := cbn [sessions ctls pxys proxies next_sid next_pid addctr put set_sessions set_ctls set_pxys set_proxies] in *.
+Ltac psimpl := cbn [sessions ctls pxys proxies next_sid next_pid addctr maxports put set_sessions set_ctls set_pxys set_proxies set_next_sid set_next_pid set_addctr] in *.
 
 Lemma invB_same : forall st st',
   sessions st' = sessions st -> ctls st' = ctls st -> addctr st' = addctr st -> next_sid st <= next_sid st' ->
@@ -506,9 +515,7 @@ Qed.
 Lemma invB_add : forall st n x lp,
   invB st -> alookup n (sessions st) = Some x -> s_lpc x = LAdd ->
   match alookup (s_rid x) (ctls st) with Some o => lp = LWait o | None => lp = LStart end ->
-  invB (mkSt (next_sid st) (next_pid st) (addctr st + 1)
-             (aset n (with_seq (with_lpc x lp) (addctr st)) (sessions st))
-             (aset (s_rid x) n (ctls st)) (pxys st) (proxies st)).
+  invB (set_addctr (set_ctls (put st n (with_seq (with_lpc x lp) (addctr st))) (aset (s_rid x) n (ctls st))) (addctr st + 1)).
 Proof.
   intros st n x lp J Hx Hpc Hlp. pose proof J as [J1 J2 J3 J4 J5 J6 J7 J8].
   assert (NA : ~ added x) by (unfold added; rewrite Hpc; tauto).
@@ -595,7 +602,7 @@ Ltac updB J Hx Hpc :=
 
 Lemma invB_step : forall st a st' o, invB st -> step st a = Some (st', o) -> invB st'.
 Proof.
-  intros st a st' o J H. step_cases H; try assumption;
+  intros st a st' o J H. step_cases H; qb; try assumption;
     try (updB J Hx Hpc; fail);
     try (rewrite <- (sessions_close st pid) in Hx;
          assert (J' : invB (close_proxy st pid)) by
@@ -716,8 +723,282 @@ Proof.
     + eapply invB_same with (st := put st s0 (with_dpc x DEnd)); try reflexivity; try (simpl; lia). exact J'.
 Qed.
 
-Theorem invB_reachable : forall acts, invB (run acts init).
-Proof. apply reachable_ind'; [exact invB_init|]. intros; eapply invB_step; eauto. Qed.
+Theorem invB_reachable : forall m acts, invB (run acts (init_with m)).
+Proof. intro m. apply reachable_ind'; [exact (invB_init m)|]. intros; eapply invB_step; eauto. Qed.
+
+(* ---------- group R: a running proxy is in its owner's view or in flight ---------- *)
+Definition live_view (x : session) : list (N * N) :=
+  match s_spc x with
+  | SStore name pid => (name, pid) :: s_proxies x
+  | SCDel name pid => aremove name (s_proxies x)
+  | TLoop todo => todo
+  | TDel _ _ todo => todo
+  | TFinished => []
+  | _ => s_proxies x
+  end.
+
+Definition hold (x : session) (n p : N) : Prop :=
+  alookup n (live_view x) = Some p \/ inflight x = Some (n, p).
+
+Definition invR (st : state) : Prop :=
+  forall p pr, alookup p (proxies st) = Some pr -> p_status pr = PRunning ->
+    exists x, alookup (p_owner pr) (sessions st) = Some x /\ hold x (p_name pr) p.
+
+Lemma invR_master : forall st st' s x x' (drop : option N),
+  invR st -> alookup s (sessions st) = Some x ->
+  (forall t, alookup t (sessions st') = if N.eqb t s then Some x' else alookup t (sessions st)) ->
+  (forall p pr', alookup p (proxies st') = Some pr' -> p_status pr' = PRunning ->
+     Some p <> drop /\ exists pr, alookup p (proxies st) = Some pr /\ p_status pr = PRunning /\
+       p_owner pr' = p_owner pr /\ p_name pr' = p_name pr) ->
+  (forall n p, hold x n p -> Some p <> drop -> hold x' n p) ->
+  invR st'.
+Proof.
+  intros st st' s x x' drop IR Hx Hs Hp Hh p pr' Hp' Hr'.
+  destruct (Hp _ _ Hp' Hr') as (Nd & pr & Hp0 & Hr0 & Eo & En).
+  destruct (IR _ _ Hp0 Hr0) as (y & Hy & Hy2). rewrite Eo, En. rewrite Hs.
+  destruct (N.eqb_spec (p_owner pr) s) as [E|E].
+  - exists x'. split; [reflexivity|]. rewrite E in Hy. replace y with x in * by congruence. auto.
+  - exists y. auto.
+Qed.
+
+Lemma close_running : forall st pid p pr',
+  alookup p (proxies (close_proxy st pid)) = Some pr' -> p_status pr' = PRunning ->
+  Some p <> Some pid /\ exists pr, alookup p (proxies st) = Some pr /\ p_status pr = PRunning /\
+    p_owner pr' = p_owner pr /\ p_name pr' = p_name pr.
+Proof.
+  intros st pid p pr' H Hr. unfold close_proxy in H. destruct (alookup pid (proxies st)) as [q|] eqn:Hq.
+  - simpl in H. lkH H. destruct (N.eqb_spec p pid); subst.
+    + inv1 H. simpl in Hr. discriminate.
+    + split; [congruence|]. exists pr'. auto.
+  - split; [intros E; inv1 E; congruence|]. exists pr'. auto.
+Qed.
+
+Lemma same_running : forall st p pr',
+  alookup p (proxies st) = Some pr' -> p_status pr' = PRunning ->
+  Some p <> (None : option N) /\ exists pr, alookup p (proxies st) = Some pr /\ p_status pr = PRunning /\
+    p_owner pr' = p_owner pr /\ p_name pr' = p_name pr.
+Proof. intros. split; [discriminate|]. exists pr'. auto. Qed.
+
+Ltac sess_shape := intros t; cbn [sessions ctls pxys proxies put set_sessions set_ctls set_pxys set_proxies set_next_sid set_next_pid set_addctr]; rewrite ?sessions_close; rewrite ?alookup_aset; reflexivity.
+
+Lemma invR_step : forall st a st' o, invA st -> invR st -> step st a = Some (st', o) -> invR st'.
+Proof.
+  intros st a st' o I IR H. step_cases H; qb; try assumption;
+    try (eapply (invR_master _ _ _ _ _ None IR Hx);
+         [ sess_shape
+         | simpl; intros; apply same_running; assumption
+         | unfold hold, live_view, inflight; simpl; rewrite ?Hpc; intros n0 p0 Hh _; exact Hh ]; fail).
+  - (* ALogin *)
+    intros p pr Hp Hr. simpl in Hp. destruct (IR _ _ Hp Hr) as (y & Hy & Hh). exists y. split; [|exact Hh].
+    cbn [sessions put set_sessions set_next_sid]. lk.
+    destruct (N.eqb_spec (p_owner pr) (next_sid st)) as [E|E]; [|exact Hy].
+    pose proof (A_sid _ I _ _ Hy). lia.
+  - (* CloseProxy of an own name *)
+    eapply (invR_master _ _ _ _ _ (Some pid) IR Hx); [sess_shape|simpl; intros; eapply close_running; eauto|].
+    unfold hold, live_view, inflight; simpl; rewrite ?Hpc. intros n0 p0 [Hh|Hh] Hd; [|discriminate]. left.
+    lk. destruct (N.eqb_spec n0 name); [subst; congruence|exact Hh].
+  - (* Add replacing an old session *)
+    assert (IR1 : invR (put st o' (with_closed (with_runid y None) true))).
+    { eapply (invR_master _ _ _ _ _ None IR Hy); [sess_shape|simpl; intros; apply same_running; assumption|].
+      unfold hold, live_view, inflight; simpl. intros n0 p0 Hh _; exact Hh. }
+    destruct (N.eq_dec s0 o') as [E|E].
+    + subst. replace y with x in * by congruence.
+      eapply (invR_master _ _ o' _ _ None IR1); [simpl; lk; rewrite N.eqb_refl; reflexivity| |simpl; intros; apply same_running; assumption|].
+      * intros t. cbn [sessions ctls pxys proxies put set_sessions set_ctls set_addctr]. rewrite !alookup_aset.
+        destruct (N.eqb_spec t o'); reflexivity.
+      * unfold hold, live_view, inflight; simpl. intros n0 p0 Hh _; exact Hh.
+    + eapply (invR_master _ _ s0 x _ None IR1); [simpl; lk; destruct (N.eqb_spec s0 o'); [contradiction|exact Hx]| |simpl; intros; apply same_running; assumption|].
+      * intros t. cbn [sessions ctls pxys proxies put set_sessions set_ctls set_addctr]. rewrite !alookup_aset. reflexivity.
+      * unfold hold, live_view, inflight; simpl. intros n0 p0 Hh _; exact Hh.
+  - (* Start *)
+    assert (Hs : s_spc x = SNone) by (apply (A_none _ I _ _ Hx); rewrite Hpc; discriminate).
+    eapply (invR_master _ _ _ _ _ None IR Hx); [sess_shape|simpl; intros; apply same_running; assumption|].
+    unfold hold, live_view, inflight; simpl; rewrite Hs. intros n0 p0 Hh _; exact Hh.
+  - (* Run: the new proxy is in flight *)
+    intros p pr Hp Hr. cbn [proxies sessions put set_sessions set_proxies set_next_pid] in *. lkH Hp.
+    destruct (N.eqb_spec p (next_pid st)).
+    + subst. inv1 Hp. simpl. eexists. lk. rewrite N.eqb_refl. split; [reflexivity|].
+      right. unfold inflight; simpl. reflexivity.
+    + destruct (IR _ _ Hp Hr) as (y & Hy & Hh). lk. destruct (N.eqb_spec (p_owner pr) s0) as [E|E].
+      * eexists. split; [reflexivity|]. rewrite E in Hy. replace y with x in * by congruence.
+        unfold hold, live_view, inflight in *; simpl. rewrite Hpc in Hh. destruct Hh as [Hh|Hh]; [left; exact Hh|discriminate].
+      * exists y. auto.
+  - (* pxyManager.Add succeeds: from in flight into the view *)
+    assert (Hfree : alookup name (s_proxies x) = None).
+    { destruct (alookup name (s_proxies x)) as [q|] eqn:E; [|reflexivity].
+      assert (Hv : alookup name (reg_view x) = Some q) by (unfold reg_view; rewrite Hpc; exact E).
+      destruct (A_view _ I _ _ _ _ Hx Hv). congruence. }
+    eapply (invR_master _ _ _ _ _ None IR Hx); [sess_shape|simpl; intros; apply same_running; assumption|].
+    unfold hold, live_view, inflight; simpl; rewrite ?Hpc. intros n0 p0 [Hh|Hh] _; left; simpl.
+    + destruct (N.eqb_spec n0 name); [subst; congruence|exact Hh].
+    + inv1 Hh. rewrite N.eqb_refl. reflexivity.
+  - (* rollback *)
+    eapply (invR_master _ _ _ _ _ (Some pid) IR Hx); [sess_shape|simpl; intros; eapply close_running; eauto|].
+    unfold hold, live_view, inflight; simpl; rewrite ?Hpc. intros n0 p0 [Hh|Hh] Hd; [left; exact Hh|]. inv1 Hh. congruence.
+  - (* store *)
+    eapply (invR_master _ _ _ _ _ None IR Hx); [sess_shape|simpl; intros; apply same_running; assumption|].
+    unfold hold, live_view, inflight; simpl; rewrite ?Hpc. intros n0 p0 [Hh|Hh] _; [|discriminate]. left.
+    simpl in Hh. lk. destruct (N.eqb_spec n0 name); exact Hh.
+  - (* teardown picks an entry *)
+    change (if pick =? tn then aremove pick todo' else (tn, tp) :: aremove pick todo')
+      with (aremove pick ((tn, tp) :: todo')).
+    remember ((tn, tp) :: todo') as td eqn:Etd.
+    eapply (invR_master _ _ _ _ _ (Some pid) IR Hx); [sess_shape|simpl; intros; eapply close_running; eauto|].
+    unfold hold, live_view, inflight; simpl; rewrite ?Hpc. intros n0 p0 [Hh|Hh] Hd; [|discriminate]. left.
+    lk. destruct (N.eqb_spec n0 pick); [subst n0; congruence|exact Hh].
+Qed.
+
+Lemma invR_init : forall m, invR (init_with m).
+Proof. intros m p pr H. discriminate. Qed.
+
+Theorem invAR_reachable : forall m acts, invA (run acts (init_with m)) /\ invR (run acts (init_with m)).
+Proof.
+  intro m. apply (reachable_ind' (fun st => invA st /\ invR st)); [split; [apply invA_init|apply invR_init]|].
+  intros st a st' o [I IR] H. split; [eapply invA_step; eauto|eapply invR_step; eauto].
+Qed.
+
+(* ---------- non-interference: a step of another session never changes my entries ---------- *)
+Definition actor (a : action) : option N :=
+  match a with
+  | AReq s _ => Some s
+  | AEof s => Some s
+  | AStep (TSess s) _ => Some s
+  | _ => None
+  end.
+
+(* session s keeps its view, and every entry of its view keeps its name-table slot and its proxy *)
+Definition keeps (st st' : state) (s : N) : Prop :=
+  forall x, alookup s (sessions st) = Some x ->
+    exists x', alookup s (sessions st') = Some x' /\
+      (forall n, alookup n (reg_view x') = alookup n (reg_view x)) /\
+      (forall n p, alookup n (reg_view x) = Some p ->
+         alookup n (pxys st') = alookup n (pxys st) /\ alookup p (proxies st') = alookup p (proxies st)).
+
+Lemma keeps_refl : forall st s, keeps st st s.
+Proof. intros st s x Hx. exists x. auto. Qed.
+
+Lemma keeps_trans : forall a b c s, keeps a b s -> keeps b c s -> keeps a c s.
+Proof.
+  intros a b c s H1 H2 x Hx. destruct (H1 _ Hx) as (x1 & Hx1 & V1 & E1).
+  destruct (H2 _ Hx1) as (x2 & Hx2 & V2 & E2). exists x2. split; [auto|]. split.
+  - intros n. rewrite V2. apply V1.
+  - intros n p Hn. destruct (E1 _ _ Hn) as [A B]. rewrite <- (V1 n) in Hn. destruct (E2 _ _ Hn) as [C D].
+    split; congruence.
+Qed.
+
+(* another session s0 is updated; the tables change only outside the entries of s *)
+Lemma keeps_other : forall st st' s s0 x0',
+  s <> s0 ->
+  (forall t, alookup t (sessions st') = if N.eqb t s0 then Some x0' else alookup t (sessions st)) ->
+  (forall x n p, alookup s (sessions st) = Some x -> alookup n (reg_view x) = Some p ->
+     alookup n (pxys st') = alookup n (pxys st) /\ alookup p (proxies st') = alookup p (proxies st)) ->
+  keeps st st' s.
+Proof.
+  intros st st' s s0 x0' Hne Hs Ht x Hx. exists x. rewrite Hs.
+  destruct (N.eqb_spec s s0); [contradiction|]. repeat split; eauto; apply (Ht _ _ _ Hx H).
+Qed.
+
+(* some session (possibly s itself) is updated without changing its view; tables unchanged *)
+Lemma keeps_view : forall st st' s s0 x0 x0',
+  alookup s0 (sessions st) = Some x0 ->
+  (forall t, alookup t (sessions st') = if N.eqb t s0 then Some x0' else alookup t (sessions st)) ->
+  (forall n, alookup n (reg_view x0') = alookup n (reg_view x0)) ->
+  pxys st' = pxys st -> proxies st' = proxies st ->
+  keeps st st' s.
+Proof.
+  intros st st' s s0 x0 x0' Hx0 Hs Hv Hp Hq x Hx. rewrite Hs, Hp, Hq.
+  destruct (N.eqb_spec s s0).
+  - subst. replace x0 with x in * by congruence. exists x0'. auto.
+  - exists x. auto.
+Qed.
+
+Lemma proxies_close_other : forall st pid p, p <> pid ->
+  alookup p (proxies (close_proxy st pid)) = alookup p (proxies st).
+Proof.
+  intros. unfold close_proxy. destruct (alookup pid (proxies st)); [|reflexivity].
+  simpl. lk. destruct (N.eqb_spec p pid); [contradiction|reflexivity].
+Qed.
+
+Lemma other_owner : forall st s s0 x n p n0 pid,
+  invA st -> alookup s (sessions st) = Some x -> alookup n (reg_view x) = Some p ->
+  owned_by st s0 n0 pid -> s <> s0 -> p <> pid.
+Proof.
+  intros st s s0 x n p n0 pid I Hx Hv Ho Hne E. subst.
+  destruct (A_view _ I _ _ _ _ Hx Hv) as [_ O1]. destruct (owned_by_fun _ _ _ _ _ _ O1 Ho). contradiction.
+Qed.
+
+Lemma other_name : forall st s s0 x x0 n p name pid,
+  invA st -> alookup s (sessions st) = Some x -> alookup n (reg_view x) = Some p ->
+  alookup s0 (sessions st) = Some x0 -> alookup name (reg_view x0) = Some pid -> s <> s0 -> n <> name.
+Proof.
+  intros st s s0 x x0 n p name pid I Hx Hv Hx0 Hv0 Hne E. subst.
+  destruct (A_view _ I _ _ _ _ Hx Hv) as [R1 O1]. destruct (A_view _ I _ _ _ _ Hx0 Hv0) as [R2 O2].
+  assert (p = pid) by congruence. subst. destruct (owned_by_fun _ _ _ _ _ _ O1 O2). contradiction.
+Qed.
+
+Lemma foreign_step_keeps : forall st a st' o s,
+  invA st -> step st a = Some (st', o) -> actor a <> Some s -> keeps st st' s.
+Proof.
+  intros st a st' o s I H Hact. step_cases H; qb; try apply keeps_refl;
+    try (assert (Hne : s <> s0) by (intros E; apply Hact; simpl; congruence)).
+  all: try (eapply keeps_other; [exact Hne|sess_shape|intros; cbn [pxys proxies put set_sessions set_ctls set_pxys set_proxies set_next_sid set_next_pid set_addctr]; split; reflexivity]; fail).
+  all: try (eapply keeps_view; [exact Hx|sess_shape|intros; unfold reg_view; simpl; reflexivity|reflexivity|reflexivity]; fail).
+  - (* ALogin *)
+    intros x Hx. exists x. cbn [sessions pxys proxies put set_sessions set_next_sid]. lk.
+    destruct (N.eqb_spec s (next_sid st)) as [E|E]; [pose proof (A_sid _ I _ _ Hx); lia|auto].
+  - (* CloseProxy of s0's own name *)
+    assert (Ho : owned_by st s0 name pid).
+    { apply (A_view _ I _ _ _ _ Hx). unfold reg_view. rewrite Hpc. exact Hown. }
+    eapply keeps_other; [exact Hne|sess_shape|].
+    intros x1 n p Hx1 Hv. cbn [pxys proxies put set_sessions]. rewrite pxys_close. split; [reflexivity|].
+    apply proxies_close_other. eapply other_owner; eauto.
+  - (* Add replacing an old session *)
+    eapply keeps_trans with (b := put st o' (with_closed (with_runid y None) true)).
+    + eapply keeps_view; [exact Hy|sess_shape|intros; unfold reg_view; simpl; reflexivity|reflexivity|reflexivity].
+    + destruct (N.eq_dec s0 o') as [E|E].
+      * subst. replace y with x in * by congruence.
+        eapply keeps_view with (s0 := o') (x0' := with_seq (with_lpc x (LWait o')) (addctr st)); [simpl; lk; rewrite N.eqb_refl; reflexivity| |intros; unfold reg_view; simpl; reflexivity|reflexivity|reflexivity].
+        intros t. cbn [sessions put set_sessions set_ctls set_addctr]. rewrite !alookup_aset. destruct (N.eqb_spec t o'); reflexivity.
+      * eapply keeps_view with (s0 := s0) (x0 := x) (x0' := with_seq (with_lpc x (LWait o')) (addctr st)); [simpl; lk; destruct (N.eqb_spec s0 o'); [contradiction|exact Hx]| |intros; unfold reg_view; simpl; reflexivity|reflexivity|reflexivity].
+        intros t. cbn [sessions put set_sessions set_ctls set_addctr]. rewrite !alookup_aset. reflexivity.
+  - (* Start *)
+    assert (Hs : s_spc x = SNone) by (apply (A_none _ I _ _ Hx); rewrite Hpc; discriminate).
+    eapply keeps_view; [exact Hx|sess_shape|intros; unfold reg_view; simpl; rewrite Hs; reflexivity|reflexivity|reflexivity].
+  - (* Run *)
+    eapply keeps_other; [exact Hne|sess_shape|].
+    intros x1 n p Hx1 Hv. cbn [pxys proxies put set_sessions set_proxies set_next_pid]. split; [reflexivity|].
+    lk. destruct (N.eqb_spec p (next_pid st)) as [E|E]; [|reflexivity].
+    destruct (A_view _ I _ _ _ _ Hx1 Hv) as [_ (pr & Hp & _)]. pose proof (A_pid _ I _ _ Hp). lia.
+  - (* pxyManager.Add succeeds *)
+    eapply keeps_other; [exact Hne|sess_shape|].
+    intros x1 n p Hx1 Hv. cbn [pxys proxies put set_sessions set_pxys]. split; [|reflexivity].
+    lk. destruct (N.eqb_spec n name) as [E|E]; [|reflexivity].
+    destruct (A_view _ I _ _ _ _ Hx1 Hv) as [R _]. subst. congruence.
+  - (* rollback *)
+    assert (Ho : owned_by st s0 name pid).
+    { apply (A_infl _ I _ _ _ _ Hx). unfold inflight. rewrite Hpc. reflexivity. }
+    eapply keeps_other; [exact Hne|sess_shape|].
+    intros x1 n p Hx1 Hv. cbn [pxys proxies put set_sessions]. rewrite pxys_close. split; [reflexivity|].
+    apply proxies_close_other. eapply other_owner; eauto.
+  - (* CloseProxy: pxyManager.Del *)
+    eapply keeps_other; [exact Hne|sess_shape|].
+    intros x1 n p Hx1 Hv. cbn [pxys proxies put set_sessions set_pxys]. split; [|reflexivity].
+    lk. destruct (N.eqb_spec n name) as [E|E]; [|reflexivity]. exfalso.
+    eapply (other_name st s s0 x1 x n p name pid); eauto.
+    unfold reg_view. rewrite Hpc. simpl. rewrite N.eqb_refl. reflexivity.
+  - (* teardown picks an entry *)
+    assert (Ho : owned_by st s0 pick pid).
+    { apply (A_view _ I _ _ _ _ Hx). unfold reg_view. rewrite Hpc. exact Hpick. }
+    eapply keeps_other; [exact Hne|sess_shape|].
+    intros x1 n p Hx1 Hv. cbn [pxys proxies put set_sessions]. rewrite pxys_close. split; [reflexivity|].
+    apply proxies_close_other. eapply other_owner; eauto.
+  - (* teardown: pxyManager.Del *)
+    eapply keeps_other; [exact Hne|sess_shape|].
+    intros x1 n p Hx1 Hv. cbn [pxys proxies put set_sessions set_pxys]. split; [|reflexivity].
+    lk. destruct (N.eqb_spec n name) as [E|E]; [|reflexivity]. exfalso.
+    eapply (other_name st s s0 x1 x n p name pid); eauto.
+    unfold reg_view. rewrite Hpc. simpl. rewrite N.eqb_refl. reflexivity.
+Qed.
 
 (* ---------- the property statements ---------- *)
 Definition started (x : session) : Prop := s_lpc x = LEnd.
@@ -726,38 +1007,39 @@ Definition earlier (z x : session) : Prop := added z /\ s_rid z = s_rid x /\ s_s
 (* the session holds nothing: empty view, and no entry of the name table belongs to it *)
 Definition footprint_empty (st : state) (t : N) (z : session) : Prop :=
   reg_view z = [] /\ inflight z = None /\ s_spc z = TFinished /\
-  forall n p pr, alookup n (pxys st) = Some p -> alookup p (proxies st) = Some pr -> p_owner pr <> t.
+  (forall n p pr, alookup n (pxys st) = Some p -> alookup p (proxies st) = Some pr -> p_owner pr <> t) /\
+  (forall p pr, alookup p (proxies st) = Some pr -> p_owner pr = t -> p_status pr = PClosed).
 
-Theorem name_unique : forall acts s t x y n p q,
-  let st := run acts init in
+Theorem name_unique : forall cfg acts s t x y n p q,
+  let st := run acts (init_with cfg) in
   alookup s (sessions st) = Some x -> alookup t (sessions st) = Some y ->
   alookup n (reg_view x) = Some p -> alookup n (reg_view y) = Some q ->
   s = t /\ p = q.
 Proof.
-  intros acts s t x y n p q st Hx Hy Hp Hq. pose proof (invA_reachable acts) as I. fold st in I.
+  intros cfg acts s t x y n p q st Hx Hy Hp Hq. pose proof (invA_reachable cfg acts) as I. fold st in I.
   destruct (A_view _ I _ _ _ _ Hx Hp) as [R1 O1]. destruct (A_view _ I _ _ _ _ Hy Hq) as [R2 O2].
   assert (p = q) by congruence. subst q. destruct (owned_by_fun _ _ _ _ _ _ O1 O2). auto.
 Qed.
 
-Theorem table_entry_has_one_holder : forall acts n p,
-  let st := run acts init in
+Theorem table_entry_has_one_holder : forall cfg acts n p,
+  let st := run acts (init_with cfg) in
   alookup n (pxys st) = Some p ->
   exists pr x, alookup p (proxies st) = Some pr /\ p_name pr = n /\
     alookup (p_owner pr) (sessions st) = Some x /\ alookup n (reg_view x) = Some p.
 Proof.
-  intros acts n p st H. pose proof (invA_reachable acts) as I. fold st in I.
+  intros cfg acts n p st H. pose proof (invA_reachable cfg acts) as I. fold st in I.
   destruct (A_table _ I _ _ H) as (pr & x & Hp & Hx & Hv). exists pr, x. repeat split; auto.
   destruct (A_view _ I _ _ _ _ Hx Hv) as [_ (pr' & Hp' & _ & Hn)]. congruence.
 Qed.
 
 (* step-level facts, valid in every state *)
-Theorem second_registration_refused : forall st t y n att ro p pick,
-  alookup t (sessions st) = Some y -> s_spc y = SExist n att ro -> alookup n (pxys st) = Some p ->
+Theorem second_registration_refused : forall st t y n att np ro p pick,
+  alookup t (sessions st) = Some y -> s_spc y = SExist n att np ro -> alookup n (pxys st) = Some p ->
   exists st', step st (AStep (TSess t) pick) = Some (st', [ONewProxyResp t n att 2 (negb (s_closed y))]) /\
     pxys st' = pxys st /\ proxies st' = proxies st /\
     forall u, u <> t -> alookup u (sessions st') = alookup u (sessions st).
 Proof.
-  intros st t y n att ro p pick Hy Hpc Hn. simpl. rewrite Hy. unfold step_sess. rewrite Hpc, Hn.
+  intros st t y n att np ro p pick Hy Hpc Hn. simpl. rewrite Hy. unfold step_sess. rewrite Hpc, Hn.
   eexists. split; [reflexivity|]. simpl. repeat split; auto.
   intros u Hu. lk. destruct (N.eqb_spec u t); [contradiction|reflexivity].
 Qed.
@@ -791,60 +1073,64 @@ Proof.
   intros st s x n Hx Hpc Hc Hn. simpl. rewrite Hx. unfold step_req. rewrite Hpc, Hc, Hn. reflexivity.
 Qed.
 
-Theorem ack_after_full_teardown : forall acts n x t z,
-  let st := run acts init in
+Theorem ack_after_full_teardown : forall cfg acts n x t z,
+  let st := run acts (init_with cfg) in
   alookup n (sessions st) = Some x -> started x ->
   alookup t (sessions st) = Some z -> earlier z x ->
   s_done z = true /\ footprint_empty st t z.
 Proof.
-  intros acts n x t z st Hx Sx Hz (Az & Rz & Lz).
-  pose proof (invA_reachable acts) as I. pose proof (invB_reachable acts) as J. fold st in I, J.
+  intros cfg acts n x t z st Hx Sx Hz (Az & Rz & Lz).
+  pose proof (invA_reachable cfg acts) as I. pose proof (invB_reachable cfg acts) as J. fold st in I, J.
   assert (D : s_done z = true) by (apply (B_post _ J _ _ Hx (or_intror Sx) _ _ Hz); auto).
   split; [exact D|].
   destruct (B_pc _ J _ _ Hz) as (_ & K2 & _). specialize (K2 D).
   unfold footprint_empty, reg_view, inflight. rewrite K2. repeat split; auto.
-  intros m p pr Hm Hp E. destruct (A_table _ I _ _ Hm) as (pr' & w & Hp' & Hw & Hv).
-  replace pr' with pr in * by congruence. rewrite E in Hw. replace w with z in * by congruence.
-  unfold reg_view in Hv. rewrite K2 in Hv. discriminate.
+  - intros k p pr Hm Hp E. destruct (A_table _ I _ _ Hm) as (pr' & w & Hp' & Hw & Hv).
+    replace pr' with pr in * by congruence. rewrite E in Hw. replace w with z in * by congruence.
+    unfold reg_view in Hv. rewrite K2 in Hv. discriminate.
+  - intros p pr Hp E. destruct (p_status pr) eqn:S; [|reflexivity].
+    destruct (proj2 (invAR_reachable cfg acts) _ _ Hp S) as (w & Hw & Hh). fold st in Hw.
+    rewrite E in Hw. replace w with z in * by congruence.
+    unfold hold, live_view, inflight in Hh. rewrite K2 in Hh. destruct Hh; discriminate.
 Qed.
 
-Theorem own_old_registrations_never_block : forall acts n x name p pr t z,
-  let st := run acts init in
+Theorem own_old_registrations_never_block : forall cfg acts n x name p pr t z,
+  let st := run acts (init_with cfg) in
   alookup n (sessions st) = Some x -> started x ->
   alookup name (pxys st) = Some p -> alookup p (proxies st) = Some pr ->
   alookup t (sessions st) = Some z -> earlier z x -> p_owner pr <> t.
 Proof.
-  intros acts n x name p pr t z st Hx Sx Hn Hp Hz Ez.
-  destruct (ack_after_full_teardown acts n x t z Hx Sx Hz Ez) as (_ & _ & _ & _ & F). eauto.
+  intros cfg acts n x name p pr t z st Hx Sx Hn Hp Hz Ez.
+  destruct (ack_after_full_teardown cfg acts n x t z Hx Sx Hz Ez) as (_ & _ & _ & _ & F & _). eauto.
 Qed.
 
-Theorem late_del_never_removes_new : forall acts s x,
-  let st := run acts init in
+Theorem late_del_never_removes_new : forall cfg acts s x,
+  let st := run acts (init_with cfg) in
   alookup s (sessions st) = Some x -> added x -> s_done x = false ->
   exists m y, getbyid st (s_rid x) = Some m /\ alookup m (sessions st) = Some y /\
               s_rid y = s_rid x /\ s_seq x <= s_seq y.
 Proof.
-  intros acts s x st Hx Ax Dx. pose proof (invB_reachable acts) as J. fold st in J.
+  intros cfg acts s x st Hx Ax Dx. pose proof (invB_reachable cfg acts) as J. fold st in J.
   destruct (B_live _ J _ _ Hx Ax Dx) as (m & y & Hc & Hy & Le). exists m, y. unfold getbyid.
   destruct (B_new _ J _ _ Hc) as (y' & Hy' & _ & Ry & _). replace y' with y in * by congruence. auto.
 Qed.
 
-Theorem runid_designates_newest : forall acts r m,
-  let st := run acts init in
+Theorem runid_designates_newest : forall cfg acts r m,
+  let st := run acts (init_with cfg) in
   getbyid st r = Some m ->
   exists y, alookup m (sessions st) = Some y /\ added y /\ s_rid y = r /\
     forall t z, alookup t (sessions st) = Some z -> added z -> s_rid z = r -> s_seq z <= s_seq y.
 Proof.
-  intros acts r m st H. pose proof (invB_reachable acts) as J. fold st in J. exact (B_new _ J _ _ H).
+  intros cfg acts r m st H. pose proof (invB_reachable cfg acts) as J. fold st in J. exact (B_new _ J _ _ H).
 Qed.
 
 (* at most one session of a run id is started and not yet done *)
-Theorem one_active_session_per_runid : forall acts s x t y,
-  let st := run acts init in
+Theorem one_active_session_per_runid : forall cfg acts s x t y,
+  let st := run acts (init_with cfg) in
   alookup s (sessions st) = Some x -> alookup t (sessions st) = Some y ->
   started x -> started y -> s_rid x = s_rid y -> s_done x = false -> s_done y = false -> s = t.
 Proof.
-  intros acts s x t y st Hx Hy Sx Sy R Dx Dy. pose proof (invB_reachable acts) as J. fold st in J.
+  intros cfg acts s x t y st Hx Hy Sx Sy R Dx Dy. pose proof (invB_reachable cfg acts) as J. fold st in J.
   assert (Ax : added x) by (unfold added, started in *; congruence).
   assert (Ay : added y) by (unfold added, started in *; congruence).
   destruct (N.lt_trichotomy (s_seq x) (s_seq y)) as [L|[E|L]].
@@ -865,4 +1151,88 @@ Proof.
   eexists. split; [reflexivity|]. simpl. repeat split; auto.
   - intros u Hu. lk. destruct (N.eqb_spec u n); [contradiction|reflexivity].
   - intros r Hr. lk. destruct (N.eqb_spec r (s_rid x)); [contradiction|reflexivity].
+Qed.
+
+(* ---------- full-strength non-interference and its corollaries ---------- *)
+Theorem running_proxy_is_held : forall cfg acts p pr,
+  let st := run acts (init_with cfg) in
+  alookup p (proxies st) = Some pr -> p_status pr = PRunning ->
+  exists x, alookup (p_owner pr) (sessions st) = Some x /\ hold x (p_name pr) p.
+Proof. intros cfg acts p pr st. exact (proj2 (invAR_reachable cfg acts) p pr). Qed.
+
+(* one step of anybody else *)
+Theorem foreign_step_keeps_my_entries : forall cfg acts a s x n p,
+  let st := run acts (init_with cfg) in
+  actor a <> Some s ->
+  alookup s (sessions st) = Some x -> alookup n (reg_view x) = Some p ->
+  exists x', alookup s (sessions (next st a)) = Some x' /\ alookup n (reg_view x') = Some p /\
+    alookup n (pxys (next st a)) = Some p /\ alookup p (proxies (next st a)) = alookup p (proxies st).
+Proof.
+  intros cfg acts a s x n p st Ha Hx Hv. pose proof (invA_reachable cfg acts) as I. fold st in I.
+  destruct (A_view _ I _ _ _ _ Hx Hv) as [Hr _].
+  unfold next. destruct (step st a) as [[st' o]|] eqn:E.
+  - destruct (foreign_step_keeps _ _ _ _ s I E Ha _ Hx) as (x' & Hx' & V & T).
+    destruct (T _ _ Hv) as [T1 T2]. exists x'. rewrite V, T1. auto.
+  - exists x. auto.
+Qed.
+
+(* any number of steps of anybody else, in any interleaving *)
+Theorem foreign_actions_keep_my_entries : forall cfg acts2 acts s x n p,
+  let st := run acts (init_with cfg) in
+  Forall (fun a => actor a <> Some s) acts2 ->
+  alookup s (sessions st) = Some x -> alookup n (reg_view x) = Some p ->
+  let st2 := run acts2 st in
+  exists x2, alookup s (sessions st2) = Some x2 /\ alookup n (reg_view x2) = Some p /\
+    alookup n (pxys st2) = Some p /\ alookup p (proxies st2) = alookup p (proxies st).
+Proof.
+  intros cfg acts2. induction acts2 as [|a r IH]; intros acts s x n p st HF Hx Hv st2.
+  - pose proof (invA_reachable cfg acts) as I. fold st in I. destruct (A_view _ I _ _ _ _ Hx Hv) as [Hr _].
+    exists x. auto.
+  - inversion HF as [|a' r' Ha Hr]; subst.
+    destruct (foreign_step_keeps_my_entries cfg acts a s x n p Ha Hx Hv) as (x1 & Hx1 & Hv1 & _ & P1).
+    fold st in Hx1, P1.
+    assert (E : next st a = run (acts ++ [a]) (init_with cfg)) by (rewrite run_app; reflexivity).
+    rewrite E in Hx1. destruct (IH (acts ++ [a]) s x1 n p Hr Hx1 Hv1) as (x2 & Hx2 & Hv2 & R2 & P2).
+    exists x2. subst st2. simpl. rewrite E. repeat split; auto. rewrite P2, <- E. exact P1.
+Qed.
+
+(* reachable-state form of "a close request affects only proxies of the session that sent it" *)
+Theorem close_request_keeps_foreign_entries : forall cfg acts t cn s x n p,
+  let st := run acts (init_with cfg) in
+  t <> s -> alookup s (sessions st) = Some x -> alookup n (reg_view x) = Some p ->
+  let st' := run [AReq t (RClose cn); AStep (TSess t) 0] st in
+  exists x', alookup s (sessions st') = Some x' /\ alookup n (reg_view x') = Some p /\
+    alookup n (pxys st') = Some p /\ alookup p (proxies st') = alookup p (proxies st).
+Proof.
+  intros cfg acts t cn s x n p st Hne Hx Hv.
+  apply (foreign_actions_keep_my_entries cfg [AReq t (RClose cn); AStep (TSess t) 0] acts s x n p); auto.
+  repeat constructor; simpl; congruence.
+Qed.
+
+(* reachable-state form of "a second registration of a live name is refused": whoever holds the
+   name, in whatever program state, a registration that reaches the Exist check is answered 2 *)
+Theorem held_name_registration_refused : forall cfg acts s x n p t y att np ro pick,
+  let st := run acts (init_with cfg) in
+  alookup s (sessions st) = Some x -> alookup n (reg_view x) = Some p ->
+  alookup t (sessions st) = Some y -> s_spc y = SExist n att np ro ->
+  exists st', step st (AStep (TSess t) pick) = Some (st', [ONewProxyResp t n att 2 (negb (s_closed y))]) /\
+    pxys st' = pxys st /\ proxies st' = proxies st.
+Proof.
+  intros cfg acts s x n p t y att np ro pick st Hx Hv Hy Hpc.
+  pose proof (invA_reachable cfg acts) as I. fold st in I. destruct (A_view _ I _ _ _ _ Hx Hv) as [Hr _].
+  destruct (second_registration_refused st t y n att np ro p pick Hy Hpc Hr) as (st' & E & A & B & _). eauto.
+Qed.
+
+(* ... and one that passed Exist earlier loses at pxyManager.Add *)
+Theorem held_name_add_refused : forall cfg acts s x n p t y q pick,
+  let st := run acts (init_with cfg) in
+  alookup s (sessions st) = Some x -> alookup n (reg_view x) = Some p ->
+  alookup t (sessions st) = Some y -> s_spc y = SAddP n q ->
+  exists st1, step st (AStep (TSess t) pick) = Some (st1, []) /\ pxys st1 = pxys st /\ proxies st1 = proxies st /\
+    exists y1, alookup t (sessions st1) = Some y1 /\ s_spc y1 = SRollback n q.
+Proof.
+  intros cfg acts s x n p t y q pick st Hx Hv Hy Hpc.
+  pose proof (invA_reachable cfg acts) as I. fold st in I. destruct (A_view _ I _ _ _ _ Hx Hv) as [Hr _].
+  destruct (add_race_loser_rolls_back st t y n q p pick Hy Hpc Hr) as (st1 & E & A & B & _ & y1 & Hy1 & S1 & _).
+  exists st1. repeat split; auto. exists y1. auto.
 Qed.
